@@ -366,40 +366,62 @@ def check_tracer(P, ctx):
         c = [c for c in ir.calls(ind[0]['expr']) if ir.callee_name(c) is None][0]
         ok = ir.top_nocast(c[2][0]) == ('param', fn['params'][1][0], 1) and ir.top_nocast(c[2][1]) == ('param', fn['params'][0][0], 0)
     ctx.check(ok, rule, 'GC_Recurse:mark-instance', site(fn), 'a type that declares a Mark instance is traced through it, on the object itself and this collector')
-    # (ii) conservative scan covers every aligned word of the object
-    scan = [(n, c) for (n, c) in g.nodes_calling('GC_Mark_Item')]
-    ok = len(scan) == 1
-    detail = []
-    if ok:
-        n, c = scan[0]
-        conds = [x for x in g.live() if x['kind'] == 'cond' and any(ir.callee_name(y) == 'size' for y in ir.calls(x['expr']))]
-        ok = len(conds) == 1
-        if ok:
-            lp = loops.counted_loop(g, None, conds[0])
-            sz = [y for y in ir.walk(ir.nocast(conds[0]['expr'])) if y[0] == 'call' and ir.callee_name(y) == 'size'][0]
-            ok = lp is not None
-            if ok:
-                for words in range(0, 5):
-                    for extra in (0, 3):       # sizes that are not a multiple of the word size
-                        size = words * 8 + extra
-                        try:
-                            got = loops.iterate(lp, {sz: size})
-                        except NoEval as e:
-                            got = 'not evaluable: %s' % e
-                        want = [8 * k for k in range(words)]
-                        if got != want:
-                            ok = False
-                            detail.append('object of %d bytes: offsets visited %s, every whole word is %s' % (size, got, want))
-                # the word handed to the marker is *(var*)((char*)ptr + i)
-                N = util.Norm(P, fn, expand_locals=True)
-                arg = N.canon(c[2][1])
-                want_arg = ir.canon(('un', '*', ('bin', '+', ('param', 'ptr', 1), ('local', lp['iv'][1], lp['iv'][2]))))
-                if arg != want_arg:
-                    ok = False
-                    detail.append('word read is %s, expected *(ptr + offset)' % ir.fmt(arg))
-                ok = ok and g.must_pass(n['id'], through_edges=[(conds[0]['id'], True)])
+    # (ii) conservative scan covers every aligned word of the object — evaluated (cint) for objects of 0..4 words, with and without a tail
+    # that is no whole word: every whole word is read from the object and handed to the marker once, in order, nothing else is
+    from . import cint
+    ok, detail = True, []
+    OBJ, TYP = 700000, 8577
+    unsup_ = None
+    for words in range(0, 5):
+        for extra in (0, 3, 5):
+            size = words * 8 + extra
+            ev_ = []
+
+            def call(nm, e, it, size=size, ev_=ev_):
+                if nm == 'type_of':
+                    return TYP
+                if nm in ('type_instance', 'instance'):
+                    return 0
+                if nm == 'size':
+                    return size
+                if nm == 'GC_Mark_Item':
+                    ev_.append(it.ev(e[2][1]))
+                    return 0
+                raise cint.NoEval('call %s' % nm)
+
+            def mem(a, it, size=size):
+                off = a - OBJ
+                if off % 8 or off < 0 or off + 8 > size:
+                    raise TracerMismatch('reads the word at byte %d of an object of %d bytes' % (off, size))
+                return 9000 + off // 8
+            atoms = {('global', 'NULL'): 0}
+            for T_ in ('Int', 'Float', 'String', 'Type', 'File', 'Process', 'Function', 'Mark', 'Ref', 'Box', 'Tuple', 'Array', 'List', 'Table', 'Tree', 'Range', 'Slice', 'Zip', 'Filter', 'Map', 'GC', 'Thread', 'Mutex', 'Exception'):
+                atoms[('global', T_)] = 8100 + len(atoms)
+            it = cint.CInt(P, fn, atoms=atoms, call=call, mem=mem, recurse=True, strict=True, max_steps=400)
+            it.atoms = atoms
+            try:
+                r = it.run([('ep', 'gc', 0), OBJ])
+            except TracerMismatch as x:
+                ok = False
+                detail.append('object of %d bytes: %s' % (size, x))
+                continue
+            if r[0] != 'ret':
+                unsup_ = unsup_ or 'object of %d bytes: %s' % (size, r[1])
+                continue
+            want = [9000 + k for k in range(words)]
+            if ev_ != want:
+                ok = False
+                detail.append('object of %d bytes: words handed to the marker %s, every whole word is %s' % (size, [x - 9000 if isinstance(x, int) else x for x in ev_], list(range(words))))
+    if unsup_ and ok:
+        ctx.undecided(rule, 'GC_Recurse:conservative-scan', site(fn), 'the scan leaves the evaluated fragment: ' + unsup_)
+        ctx.floor(rule, 9)
+        return
     ctx.check(ok, rule, 'GC_Recurse:conservative-scan', site(fn), 'an object without a Mark instance has every whole word [0, size(type)) handed to the marker', detail[:4])
     ctx.floor(rule, 9)
+
+
+class TracerMismatch(Exception):
+    pass
 
 
 def check_container_marks(P, ctx):
